@@ -510,7 +510,7 @@ func boundedCursor(tier string, known *KnownFile) (violations int, knownLines []
 		blocks = "7"
 	}
 	info := map[string]interface{}{"name": name, "kind": "bounded (exhaustive enumeration of a finite space on the real code; NOT a proof, not counted in obligations/discharged)",
-		"bound": "(a) block histories of 1.." + blocks + " blocks with 0..2 bridge events per block, every block boundary as persisted cursor; (b) histories of 150, 250 and 305 blocks (the scan pages by 100) with one bridge event at up to two of the heights 1, 99, 100, 101, 199, 200, 201, 250, 300 and persisted cursors 0, 100, 120; in both families every acknowledged hub nonce 0..first+total; (c) every prefix of one persisted status document as the status file found at restart; bridge events are batches (multisends from the multisig), well-formed deposits and multisig edits, assigned to the events in three rotations; every block also holds a malformed deposit and a foreign multisend that must not be counted"}
+		"bound": "(a) block histories of 1.." + blocks + " blocks with 0..2 bridge events per block, every block boundary as persisted cursor; (b) histories of 150, 250 and 305 blocks (the scan pages by 100) with one bridge event at up to two of the heights 1, 99, 100, 101, 199, 200, 201, 250, 300 and persisted cursors 0, 100, 120; in both families every acknowledged hub nonce 0..first+total; (c) every prefix of one persisted status document as the status file found at restart; (d) one injected Minter API error on the first and on the second page of a 150-block history; bridge events are batches (multisends from the multisig), well-formed deposits and multisig edits, assigned to the events in three rotations; every block also holds a malformed deposit and a foreign multisend that must not be counted"}
 	boundedInfo = []interface{}{info}
 	fail := func(msg string) (int, []string) {
 		info["result"] = "not run: " + msg
